@@ -17,12 +17,13 @@ complete without matching (ImageFormatError), every other call delivers its chun
 """
 import sys, os, io, json, struct, random, hashlib
 import gen_C06
+import gen_C06_code
 import logging
 logging.disable(logging.CRITICAL)   # the inspectors log parse problems; not part of the observations
 
 ID = 'C06'
-GEN = [('Gen/C06_Wrapper.v', gen_C06.generate)]
-EQUIV_FILES = []
+GEN = [('Gen/C06_Wrapper.v', gen_C06.generate), ('Gen/C06_Code.v', gen_C06_code.generate)]
+EQUIV_FILES = ['Proofs/C06_Equiv.v']
 EXTRACT = 'Extract/C06_x.v'
 
 EXN_NAMES = ['ImageFormatError', 'SafetyViolation', 'SafetyCheckFailed', 'error', 'KeyError', 'AttributeError', 'IndexError',
